@@ -293,3 +293,59 @@ pub fn describe_diff(expected: &[u8], got: &[u8], m: &ModelGame) -> String {
 		differing
 	)
 }
+
+// ---- libFuzzer entry points: the same oracles, driven by coverage-guided byte mutation ---------
+
+pub const FUZZ_TARGETS: [(&str, &str); 6] = [
+	("read_bytes", "C06"),
+	("read_struct", "C06"),
+	("model_roundtrip", "C01"),
+	("irregular_fixpoint", "C17"),
+	("incremental_diff", "C12"),
+	("truncate_prefix", "C07"),
+];
+
+fn fuzz_ctx(prop: &str) -> &'static Ctx {
+	use std::sync::OnceLock;
+	static CTX: OnceLock<Ctx> = OnceLock::new();
+	CTX.get_or_init(|| {
+		crate::rt::install_panic_hook();
+		let root = std::env::var("PV_ROOT").unwrap_or_else(|_| "/verif".into());
+		Ctx::new(prop, crate::rt::Tier::Thorough, 0, "exploration", &root)
+	})
+}
+
+/// One input through the target's oracle. Ok = property held on this input.
+pub fn fuzz_one(target: &str, data: &[u8]) -> Result<(), Fail> {
+	let prop = FUZZ_TARGETS.iter().find(|(t, _)| *t == target).map(|(_, p)| *p).unwrap_or("C06");
+	let ctx = fuzz_ctx(prop);
+	match target {
+		"read_bytes" => c06::fuzz_bytes(ctx, data),
+		"read_struct" => c06::fuzz_dna(ctx, data),
+		"model_roundtrip" => {
+			let m = model_from_dna(data, &GenCfg::quick());
+			c01::roundtrip(&m)?;
+			if data.first().map_or(false, |b| b % 4 == 0) {
+				c02::trip(&m.encode(), crate::rt::Comp::ALL[(data[0] as usize / 4) % 3], true)?;
+			}
+			Ok(())
+		}
+		"irregular_fixpoint" => c17::case(ctx, "dna", &serde_json::json!({"dna": crate::rt::hex(data)}), false),
+		"incremental_diff" => c12::case(ctx, "dna", &serde_json::json!({"dna": crate::rt::hex(data)}), false),
+		"truncate_prefix" => c07::fuzz_dna(data),
+		t => panic!("unknown fuzz target {}", t),
+	}
+}
+
+/// libFuzzer target body: aborts (=> crash artefact) when the oracle fails on an unlisted finding.
+pub fn fuzz_entry(target: &str, data: &[u8]) {
+	let prop = FUZZ_TARGETS.iter().find(|(t, _)| *t == target).map(|(_, p)| *p).unwrap_or("C06");
+	let ctx = fuzz_ctx(prop);
+	if let Err(f) = fuzz_one(target, data) {
+		if ctx.is_known(&f) {
+			return;
+		}
+		eprintln!("PV-FUZZ-FAIL target={} sig={} :: {}", target, f.sig, f.msg);
+		std::process::abort();
+	}
+}
